@@ -188,6 +188,11 @@ def run_world_property(out, binp, pid, pred, profiles, facets, sig, extra_head="
         out.infra.append("coqc failed on generated cases:\n" + "\n".join(logs)[-3000:])
     byid = {h["id"]: h for h in all_h}
     viol, mism, ignored = {}, [], 0
+    first_mis = {}
+    for key, code in res:
+        if code < 100 or code in range(151, 159):
+            hid, si = divmod(key, 1000)
+            first_mis[hid] = min(first_mis.get(hid, 10 ** 9), si)
     for key, code in res:
         hid, si = divmod(key, 1000)
         h = byid[hid]
@@ -195,7 +200,7 @@ def run_world_property(out, binp, pid, pred, profiles, facets, sig, extra_head="
         if code >= 100 and code not in range(151, 159):
             s = sig(st, code)
             viol.setdefault(s, (h, si, code))
-        elif code in facets:
+        elif code in facets and si == first_mis.get(hid):
             mism.append((h, si, code))
         else:
             ignored += 1
